@@ -193,6 +193,10 @@ def _gen_world_once(rng, k):
                             'via': 'auto', 'val': [dyadic(rng, -4, 4, 2) for _ in range(int(np.prod(shape)))]})
             else:
                 sc, so = rng.choice(prev_outs)
+                if j > 0 and comp['ins'] and comp['ins'][-1].get('src') and rng.random() < K.get('same_src', 0.0):
+                    # a second input taken from the same source (other entries / other units): the two
+                    # sub-jacobians share one block of an assembled matrix
+                    so = next(o for c_ in comps for o in c_['outs'] if o['name'] == comp['ins'][-1]['src'])
                 idx, flat = gen_index(rng, so['shape'], K['forms'])
                 sel, shape = apply_index(so['shape'], idx, flat)
                 inp.update({'shape': shape, 'units': compatible(so['units'], rng) if K['units'] else so['units'],
